@@ -49,6 +49,7 @@ def check(ctx):
                              'pop(0)/remove(x); it is re-bound only to an empty list in the reset; it never escapes')
     obs.append(o)
     n_ins = n_rem = 0
+    family = {'sorted-list': [], 'heap': []}     # the two accepted queue disciplines must not be mixed
     for s in inv.attr_uses(P, '_events'):
         role = s.extra['role']
         o.count()
@@ -76,11 +77,13 @@ def check(ctx):
                 mutating = True
                 if len(call.args) == 1 and isinstance(call.args[0], ast.Constant) and call.args[0].value == 0:
                     n_rem += 1
+                    family['sorted-list'].append(s)
                 else:
                     ok, msg = False, 'removal from the pending-event list is not from the head (pop(0))'
             elif name == 'remove':
                 mutating = True
                 n_rem += 1
+                family['sorted-list'].append(s)
             elif name in ('append', 'insert', 'extend', 'sort', 'reverse', 'clear', '__setitem__', '__delitem__',
                           'appendleft', 'popleft'):
                 mutating = True
@@ -94,9 +97,11 @@ def check(ctx):
             if callee in SORTED_INSERT and idx == 0:
                 mutating = True
                 n_ins += 1
+                family['heap' if 'heap' in callee else 'sorted-list'].append(s)
             elif callee in HEAD_REMOVE_FUNCS and idx == 0:
                 mutating = True
                 n_rem += 1
+                family['heap'].append(s)
             elif callee in READ_FUNCS:
                 pass
             else:
@@ -115,6 +120,10 @@ def check(ctx):
             o.fail(P, where, s.stmt, msg, file=s.mod.path, line=s.line)
         else:
             o.sample({'site': f'{P.rel(s.mod.path)}:{s.line}', 'in': where, 'use': role[0] if kind != 'method' else f'.{role[1]}()'})
+    if family['heap'] and family['sorted-list']:
+        for s in family['sorted-list']:
+            o.fail(P, s.ctx, s.stmt, 'the pending-event list is kept as a heap (heappush/heappop) elsewhere, but this operation treats it as a sorted list: '
+                   'removing from or sorted-inserting into a heap breaks the heap order, so a later head is not the minimum', file=s.mod.path, line=s.line)
     if n_ins < 2:
         o.fail(P, 'Environment', 'bisect.insort(self._events, ...)',
                f'expected sorted insertion into the pending-event list in schedule_event and unpause_matching_events, found {n_ins} site(s)',
